@@ -280,6 +280,71 @@ pub fn load_known() -> Vec<KnownFinding> {
         .unwrap_or_default()
 }
 
+/// Re-run, in this process, the slice of cases a worker ran (`wi, wi+nw, …` of every batch in
+/// plan order) from `from` (batch, case) — or from the worker's very first case — up to and
+/// including `upto`, and return the finding of class `class` that `upto` produces, if any.
+/// This is the replay of a *history-dependent* violation: one that a case shows only after the
+/// process has executed other cases before it (state of the code under test that outlives a
+/// call: a `static`, a thread-local, an address-keyed memo).
+#[allow(clippy::too_many_arguments)]
+pub fn run_history(
+    fam: &Family,
+    prop: &str,
+    tier: &str,
+    seed: u64,
+    wi: u64,
+    nw: u64,
+    from: Option<(String, u64)>,
+    upto: (&str, u64),
+    class: &str,
+) -> (Option<Finding>, u64) {
+    let plan = (fam.plan)(prop, tier);
+    let mut skipping = from.is_some();
+    let mut ran = 0u64;
+    for b in &plan {
+        let mut case = wi;
+        if skipping {
+            let (fb, fc) = from.as_ref().unwrap();
+            if *fb != b.name {
+                continue;
+            }
+            skipping = false;
+            case = *fc;
+        }
+        while case < b.cases {
+            let rs = case_seed(seed, prop, &b.name, case);
+            crate::c06::CASE_INDEX.with(|c| c.set(case));
+            let co = (fam.run_case)(prop, &b.name, rs);
+            ran += 1;
+            if b.name == upto.0 && case == upto.1 {
+                return (co.findings.into_iter().map(|(f, _)| f).find(|f| f.class == class), ran);
+            }
+            case += nw;
+        }
+        if b.name == upto.0 {
+            break;
+        }
+    }
+    (None, ran)
+}
+
+fn history_doc(prop: &str, tier: &str, seed: u64, nw: u64, v: &ViolationRec, from: Option<(String, u64)>) -> Value {
+    json!({
+        "property": prop,
+        "tier": tier,
+        "verif_seed": seed,
+        "batch": v.batch,
+        "case": v.case,
+        "run_seed": v.run_seed,
+        "class": v.class,
+        "message": format!("[history-dependent: the case shows this only after the process has run the preceding cases of its slice — state of the code under test outlives a call] {}", v.message),
+        "repo": repo_head(),
+        "replay": {"History": {"prop": prop, "tier": tier, "seed": seed, "wi": v.case % nw, "nw": nw,
+                               "from": from.map(|(b, c)| json!([b, c])), "batch": v.batch, "case": v.case}},
+        "single_case_payload": v.payload,
+    })
+}
+
 /// Parent: run the property's plan on `nw` worker processes. Returns the process exit code.
 pub fn run(fam: &Family, prop: &str, tier: &str, nw: u64) -> i32 {
     let t0 = Instant::now();
@@ -528,6 +593,56 @@ pub fn run(fam: &Family, prop: &str, tier: &str, nw: u64) -> i32 {
                 }
             }
         }
+        if hits == 0 && v.class != "process-abort" && v.class != "hang" {
+            // The case alone is clean in a fresh process. Does it show the violation again when a
+            // fresh process first runs what the worker had run before it? Then the result of a
+            // call depends on the calls made before it: state of the code under test outlives a
+            // call (a `static`, a thread-local, a memo keyed by an address that gets reused).
+            // That is a violation in its own right (same inputs, different result), replayable as
+            // a history. The shortest reproducing suffix of the history is searched for.
+            let hfile = format!("/verif/replays/{prop}-{}-{}-{}-history.json", v.batch, v.case, v.class);
+            let try_from = |from: Option<(String, u64)>| -> bool {
+                let doc = history_doc(prop, tier, seed, nw, v, from);
+                std::fs::write(&hfile, serde_json::to_vec_pretty(&doc).unwrap()).expect("replay file");
+                let st = Command::new(&exe).args(["replay", &hfile]).output().expect("replay process");
+                let so = String::from_utf8_lossy(&st.stdout).to_string();
+                so.lines().any(|l| l.starts_with("REPLAY reproduced") && l.contains(&format!("class={}", v.class)))
+            };
+            if try_from(None) {
+                let wi = v.case % nw;
+                let mut best: Option<(String, u64)> = None;
+                let mut m = 1u64;
+                while m <= 4096 {
+                    let back = m * nw;
+                    if v.case < wi + back {
+                        break;
+                    }
+                    let from = Some((v.batch.clone(), v.case - back));
+                    if try_from(from.clone()) {
+                        best = from;
+                        break;
+                    }
+                    m *= 2;
+                }
+                // leave the file of the shortest reproducing history behind
+                let doc = history_doc(prop, tier, seed, nw, v, best.clone());
+                std::fs::write(&hfile, serde_json::to_vec_pretty(&doc).unwrap()).expect("replay file");
+                let _ = std::fs::remove_file(&file);
+                reproduced_any = true;
+                violation_lines.push(format!("VIOLATION property={prop} replay={hfile}"));
+                println!(
+                    "  class={} batch={} case={} [history-dependent{}]: {}",
+                    v.class,
+                    v.batch,
+                    v.case,
+                    best.map(|(_, c)| format!(", needs the cases from {c} on in the same process")).unwrap_or_else(|| ", needs the worker's whole slice before it".into()),
+                    v.message.lines().next().unwrap_or("")
+                );
+                exit = 1;
+                continue;
+            }
+            let _ = std::fs::remove_file(&hfile);
+        }
         if hits == 0 {
             // An execution that ended abnormally (deadlock, panic) can leave process-wide state of
             // the code under test behind (a `static`), so that a *later* case in the same worker
@@ -687,6 +802,30 @@ pub fn replay_file(fam: &Family, path: &str) -> i32 {
                 }
             }
         }
+    }
+    if let Some(h) = doc["replay"].get("History") {
+        let from = h["from"].as_array().and_then(|a| Some((a.first()?.as_str()?.to_string(), a.get(1)?.as_u64()?)));
+        let (f, ran) = run_history(
+            fam,
+            h["prop"].as_str().unwrap_or(""),
+            h["tier"].as_str().unwrap_or("quick"),
+            h["seed"].as_u64().unwrap_or(1),
+            h["wi"].as_u64().unwrap_or(0),
+            h["nw"].as_u64().unwrap_or(16).max(1),
+            from,
+            (h["batch"].as_str().unwrap_or(""), h["case"].as_u64().unwrap_or(0)),
+            &want,
+        );
+        return match f {
+            Some(f) => {
+                println!("REPLAY reproduced class={} (after a history of {ran} cases in this process) message={}", f.class, f.message.lines().next().unwrap_or(""));
+                1
+            }
+            None => {
+                println!("REPLAY clean: the recorded history ({ran} cases) does not end in the violation on this tree");
+                0
+            }
+        };
     }
     match (fam.replay)(&doc["replay"]) {
         Ok(Some(f)) => {
